@@ -34,6 +34,9 @@ CHECKS = {
  "C10": ("exploration", "stateless sibling-scan model recomputed after every step vs the namespace manager: uniqueness, refusal exactness, exact-lookup vs scan",
          "after every step of naming histories under one policy: sibling names/identifiers unique and legal, each naming refusal coincides with an independent duplicate/legality check on the current siblings, and get_*(parent, value, key) equals a linear scan over a colliding alphabet; also reader-produced netlists.",
          "open findings fence exact lookups on clones and EDIF.identifier lookups under the DEFAULT policy; EDIF identifier grammar per EDIF 2 0 0", "4 C10"),
+ "C13": ("exploration", "metamorphic relations R0-R4 between related queries, with an independent pattern matcher over the unfiltered result",
+         "13 query functions x all accepted root kinds x selection x recursive x keys x patterns derived from present values: restriction (R1), union/order (R2), filter callback (R3), fast-lookup on/off (R4), no duplicates (R0).",
+         "documented may-match for case-variant exact EDIF identifiers; no '[' in fnmatch-evaluated patterns; four open findings fence their trigger classes (see known_findings.json)", "4 C13"),
 }
 NA = {}
 fixes = subprocess.run(["git", "-C", "/repo", "log", "--format=%h %s"], capture_output=True, text=True).stdout.splitlines()
